@@ -81,6 +81,17 @@ pub fn start_query() {
     clear_id();
 }
 
+/// Ends the current query. The SUIRON_STOP_QUERY flag becomes false.
+///
+/// solve() and solve_all() call this function when their search is over
+/// and they have read the flag. A new epoch begins. Otherwise a stop
+/// request, or a timer which could not be cancelled, would outlive the
+/// query it was meant for: a query which was constructed earlier, and is
+/// run with next_solution() afterwards, would find no rules.
+pub fn end_query() {
+    QUERY_EPOCH.fetch_add(1, Ordering::SeqCst);
+}
+
 /// Sets the SUIRON_STOP_QUERY flag to true.
 ///
 /// The SUIRON_STOP_QUERY is checked in count_rules(), in knowledgebase.rs.
